@@ -76,6 +76,9 @@ func c18Build(cs c18Case) c18File {
 			}
 			anc = []imggen.PNGChunk{{Type: "tEXt", Data: append([]byte("k\x00"), rng.Bytes(l-2)...)}}
 		}
+		if cs.Variant == "emptychunks" { // ancillary chunks without data (length field 0), alone and between others
+			anc = []imggen.PNGChunk{{Type: "prVt"}, {Type: "tEXt", Data: append([]byte("k\x00"), rng.Bytes(300)...)}, {Type: "emPt"}, {Type: "prVt"}, {Type: "tIME", Data: []byte{0x07, 0xe8, 2, 29, 12, 34, 56}}, {Type: "prVt"}}
+		}
 		if cs.Variant == "bigchunk" { // one chunk of 700 KiB, then a small one
 			anc = []imggen.PNGChunk{{Type: "tEXt", Data: append([]byte("k\x00"), rng.Bytes(700<<10)...)}, {Type: "tIME", Data: []byte{0x07, 0xe8, 2, 29, 12, 34, 56}}}
 		}
@@ -83,12 +86,15 @@ func c18Build(cs c18Case) c18File {
 		case "after-ancillary":
 			s.Pre = anc
 		case "none":
-			if cs.Variant == "ancillary" || cs.Variant == "bigchunk" {
+			if cs.Variant == "ancillary" || cs.Variant == "bigchunk" || cs.Variant == "emptychunks" {
 				s.Pre = anc
 			}
 		case "after-header":
 			if cs.Variant == "ancillary" {
 				s.Post = append(s.Post, anc...) // ancillary data between the profile and IDAT: not needed
+			}
+			if cs.Variant == "emptychunks" {
+				s.Pre = anc[:1]
 			}
 		}
 		s.IDAT = nil
@@ -110,7 +116,22 @@ func c18Build(cs c18Case) c18File {
 			if strings.HasSuffix(cs.Variant, "-255chunks") && len(icc) >= 255 {
 				n = 255
 			}
+			inter := strings.HasSuffix(cs.Variant, "-interleaved")
+			if inter && n < 3 && len(icc) >= 3 {
+				n = 3
+			}
 			for k, part := range imggen.SplitICC(icc, n) {
+				if inter && k > 0 {
+					// other segments between the chunks of the profile (they need not be adjacent)
+					switch k % 3 {
+					case 0:
+						segs = append(segs, imggen.JPEGSeg{Marker: 0xFE, Payload: rng.Bytes(1 + rng.Intn(40)), Name: "COM"})
+					case 1:
+						segs = append(segs, imggen.JPEGSeg{Marker: 0xE1, Payload: append([]byte("Exif\x00\x00"), tiffExif(rng)...), Name: "APP1"})
+					case 2:
+						segs = append(segs, imggen.JPEGSeg{Marker: 0xE2, Payload: append([]byte("MPF\x00"), rng.Bytes(30)...), Name: "APP2-other"}, imggen.JPEGSeg{Marker: 0xED, Payload: []byte("Photoshop 3.0\x00"), Name: "APP13"})
+					}
+				}
 				segs = append(segs, imggen.ICCChunkSeg(k+1, n, part))
 			}
 			s.ICC, s.ICCState = icc, "ok"
@@ -363,6 +384,13 @@ func c18Cases(seed int64, thorough bool) []c18Case {
 	add("PNG", "bigchunk", "none", 0)
 	add("PNG", "bigchunk", "after-ancillary", 500)
 	add("PNG", "bigchunk", "after-ancillary", 100<<10)
+	add("PNG", "emptychunks", "none", 0)
+	add("PNG", "emptychunks", "after-ancillary", 500)
+	add("PNG", "emptychunks", "after-header", 500)
+	for _, pl := range []string{"after-header", "after-ancillary", "after-sof"} {
+		add("JPEG", "baseline-interleaved", pl, 900)
+		add("JPEG", "progressive-interleaved", pl, 150<<10)
+	}
 	add("JPEG", "dnl", "none", 0)
 	add("JPEG", "dnl", "after-header", 500)
 	for _, v := range []string{"baseline", "progressive"} {
